@@ -412,4 +412,169 @@ theorem lenK_sub_sound {k k' : LenK} {n m r : Nat} (h : k.γ n) (hs : k.sub m = 
     subst hs; simp only [LenK.γ] at *; omega
   | dyn => simp only [LenK.sub, Option.some.injEq] at hs; subst hs; trivial
 
+/-! ### broadcasting -/
+
+theorem length_bcastRev : ∀ {a b t : List Nat}, bcastRev a b = some t → t.length = max a.length b.length
+  | [], b, t, h => by simp [bcastRev] at h; subst h; simp
+  | _ :: _, [], t, h => by simp [bcastRev] at h; subst h; simp
+  | x :: as, y :: bs, t, h => by
+      simp only [bcastRev] at h
+      split at h
+      · simp only [Option.map_eq_some_iff] at h
+        obtain ⟨r, hr, rfl⟩ := h
+        simp [length_bcastRev hr]
+      · split at h
+        · simp only [Option.map_eq_some_iff] at h
+          obtain ⟨r, hr, rfl⟩ := h
+          simp [length_bcastRev hr]
+        · simp at h
+
+theorem bcastRev_leAll : ∀ {a va b vb t r : List Nat}, LeAll a va → LeAll b vb →
+    bcastRev a b = some t → bcastRev va vb = some r → LeAll t r
+  | [], [], b, vb, t, r, _, hb, ht, hr => by
+      simp [bcastRev] at ht hr; subst ht hr; exact hb
+  | x :: as, y :: vas, [], [], t, r, ha, _, ht, hr => by
+      simp [bcastRev] at ht hr; subst ht hr; exact ha
+  | x :: as, y :: vas, u :: bs, v :: vbs, t, r, ha, hb, ht, hr => by
+      obtain ⟨hxy, has⟩ := ha
+      obtain ⟨huv, hbs⟩ := hb
+      simp only [bcastRev] at ht hr
+      -- tails
+      have tail : ∀ t' r', bcastRev as bs = some t' → bcastRev vas vbs = some r' → LeAll t' r' :=
+        fun t' r' h1 h2 => bcastRev_leAll has hbs h1 h2
+      split at ht <;> split at hr
+      all_goals (try (split at ht)) 
+      all_goals (try (split at hr))
+      all_goals (try (simp at ht; done))
+      all_goals (try (simp at hr; done))
+      all_goals
+        simp only [Option.map_eq_some_iff] at ht hr
+        obtain ⟨t', ht', rfl⟩ := ht
+        obtain ⟨r', hr', rfl⟩ := hr
+        refine ⟨?_, tail t' r' ht' hr'⟩
+        simp only [beq_iff_eq, Bool.or_eq_true, not_or] at *
+        omega
+  | [], _ :: _, _, _, _, _, h, _, _, _ => by simp [LeAll] at h
+  | _ :: _, [], _, _, _, _, h, _, _, _ => by simp [LeAll] at h
+  | _ :: _, _ :: _, [], _ :: _, _, _, _, h, _, _ => by simp [LeAll] at h
+  | _ :: _, _ :: _, _ :: _, [], _, _, _, h, _, _ => by simp [LeAll] at h
+
+theorem bcastRev_eq_left : ∀ {a b t : List Nat}, (∀ x ∈ a, 1 < x) → b.length ≤ a.length → bcastRev a b = some t → t = a
+  | [], b, t, _, hl, h => by
+      have : b = [] := by cases b <;> simp at hl ⊢
+      subst this; simp [bcastRev] at h; first | exact h | exact h.symm
+  | _ :: _, [], t, _, _, h => by simp [bcastRev] at h; first | exact h | exact h.symm
+  | x :: as, y :: bs, t, hgt, hl, h => by
+      have hx : 1 < x := hgt x (by simp)
+      have htail : ∀ t', bcastRev as bs = some t' → t' = as :=
+        fun t' h' => bcastRev_eq_left (fun z hz => hgt z (by simp [hz])) (by simpa using hl) h'
+      simp only [bcastRev] at h
+      split at h
+      · simp only [Option.map_eq_some_iff] at h
+        obtain ⟨r, hr, rfl⟩ := h
+        rw [htail r hr]
+      · split at h
+        · rename_i h1; simp at h1; omega
+        · simp at h
+
+theorem bcastRev_eq_right : ∀ {a b t : List Nat}, (∀ x ∈ b, 1 < x) → a.length ≤ b.length → bcastRev a b = some t → t = b
+  | [], b, t, _, _, h => by simp [bcastRev] at h; first | exact h | exact h.symm
+  | x :: as, [], t, _, hl, h => by simp at hl
+  | x :: as, y :: bs, t, hgt, hl, h => by
+      have hy : 1 < y := hgt y (by simp)
+      have htail : ∀ t', bcastRev as bs = some t' → t' = bs :=
+        fun t' h' => bcastRev_eq_right (fun z hz => hgt z (by simp [hz])) (by simpa using hl) h'
+      simp only [bcastRev] at h
+      split at h
+      · rename_i h1
+        simp only [Option.map_eq_some_iff] at h
+        obtain ⟨r, hr, rfl⟩ := h
+        rw [htail r hr]
+        simp only [beq_iff_eq, Bool.or_eq_true] at h1
+        rcases h1 with h1 | h1
+        · rw [h1]
+        · omega
+      · split at h
+        · simp only [Option.map_eq_some_iff] at h
+          obtain ⟨r, hr, rfl⟩ := h
+          rw [htail r hr]
+        · simp at h
+
+theorem refBroadcast_length {a b t : Shape} (h : refBroadcast a b = some t) : t.length = max a.length b.length := by
+  simp only [refBroadcast, Option.map_eq_some_iff] at h
+  obtain ⟨r, hr, rfl⟩ := h
+  simpa using length_bcastRev hr
+
+theorem refBroadcast_leAll {a va b vb t r : Shape} (ha : LeAll a va) (hb : LeAll b vb)
+    (ht : refBroadcast a b = some t) (hr : refBroadcast va vb = some r) : LeAll t r := by
+  simp only [refBroadcast, Option.map_eq_some_iff] at ht hr
+  obtain ⟨t', ht', rfl⟩ := ht
+  obtain ⟨r', hr', rfl⟩ := hr
+  exact (bcastRev_leAll ha.reverse hb.reverse ht' hr').reverse
+
+theorem refBroadcast_eq_left {a b t : Shape} (hgt : ∀ x ∈ a, 1 < x) (hl : b.length ≤ a.length)
+    (h : refBroadcast a b = some t) : t = a := by
+  simp only [refBroadcast, Option.map_eq_some_iff] at h
+  obtain ⟨r, hr, rfl⟩ := h
+  rw [bcastRev_eq_left (fun x hx => hgt x (by simpa using hx)) (by simpa using hl) hr]; simp
+
+theorem refBroadcast_eq_right {a b t : Shape} (hgt : ∀ x ∈ b, 1 < x) (hl : a.length ≤ b.length)
+    (h : refBroadcast a b = some t) : t = b := by
+  simp only [refBroadcast, Option.map_eq_some_iff] at h
+  obtain ⟨r, hr, rfl⟩ := h
+  rw [bcastRev_eq_right (fun x hx => hgt x (by simpa using hx)) (by simpa using hl) hr]; simp
+
+theorem le_foldl_max : ∀ (l : List Nat) (init : Nat), init ≤ l.foldl max init ∧ ∀ x ∈ l, x ≤ l.foldl max init
+  | [], init => by simp
+  | a :: as, init => by
+      obtain ⟨h1, h2⟩ := le_foldl_max as (max init a)
+      simp only [List.foldl_cons]
+      refine ⟨by omega, ?_⟩
+      intro x hx
+      simp at hx
+      rcases hx with rfl | hx
+      · omega
+      · exact h2 x hx
+
+theorem foldl_min_le : ∀ (l : List Nat) (init : Nat), l.foldl min init ≤ init ∧ ∀ x ∈ l, l.foldl min init ≤ x
+  | [], init => by simp
+  | a :: as, init => by
+      obtain ⟨h1, h2⟩ := foldl_min_le as (min init a)
+      simp only [List.foldl_cons]
+      refine ⟨by omega, ?_⟩
+      intro x hx
+      simp at hx
+      rcases hx with rfl | hx
+      · omega
+      · exact h2 x hx
+
+theorem one_le_foldl_min : ∀ (l : List Nat) (init : Nat), 1 ≤ init → Pos l → 1 ≤ l.foldl min init
+  | [], _, h, _ => by simpa using h
+  | a :: as, init, h, hp => by
+      simp only [List.foldl_cons]
+      exact one_le_foldl_min as _ (by have := hp.head; omega) hp.tail
+
+theorem all_gt_one_of_min {l : List Nat} (hp : Pos l) (h : l.foldl min (l.headD 0) ≠ 1) : ∀ x ∈ l, 1 < x := by
+  intro x hx
+  have hx1 := hp x hx
+  rcases Nat.lt_or_ge 1 x with hc | hc
+  · exact hc
+  exfalso
+  have hx' : x = 1 := by omega
+  subst hx'
+  have hle := (foldl_min_le l (l.headD 0)).2 1 hx
+  have hinit : 1 ≤ l.headD 0 := by
+    cases l with
+    | nil => simp at hx
+    | cons a t => have := hp.head; simp; omega
+  have hge := one_le_foldl_min l _ hinit hp
+  omega
+
+theorem leAll_replicate {l : List Nat} {m : Nat} (h : ∀ x ∈ l, x ≤ m) : LeAll l (List.replicate l.length m) := by
+  induction l with
+  | nil => trivial
+  | cons a t ih =>
+    simp only [List.length_cons, List.replicate_succ, LeAll]
+    exact ⟨h a (by simp), ih (fun x hx => h x (by simp [hx]))⟩
+
 end NmVerif.Static
